@@ -636,11 +636,17 @@ class SelectorThread:
     def _handle_select(
         self, rs: list[_FileDescriptorLike], ws: list[_FileDescriptorLike]
     ) -> None:
-        for r in rs:
-            self._handle_event(r, self._readers)
-        for w in ws:
-            self._handle_event(w, self._writers)
-        self._start_select()
+        try:
+            for r in rs:
+                self._handle_event(r, self._readers)
+            for w in ws:
+                self._handle_event(w, self._writers)
+        finally:
+            # Always hand the next select() to the selector thread, even if a
+            # callback raised: otherwise no event is ever dispatched again.
+            # (Events of this batch that were skipped are level-triggered and
+            # will be reported by the next select().)
+            self._start_select()
 
     def _handle_event(
         self,
